@@ -20,6 +20,10 @@ def check(ctx, rep):
     from .common import KeepOnly
     K.rule_send_metric(fm, KeepOnly(rep, ('/emits-the-metric-text',), 'R2s'))
     K.rule_container_override(fm, rep, 'R3')
+    # ... and the metric object built from the formatted line keeps it verbatim (From<String> / as_metric_str of the seven
+    # metric types): what the sink is given is the text that was formatted, whole
+    from .common import KeepOnly as _KO
+    F.rule_constructors(fm, _KO(rep, ('/string-kept-verbatim',), 'R2v'), 'R2v')
     K.rule_incr_decr(fm, rep, 'R4')
     K.rule_plain_forms(fm, rep, 'R4b')
     F.rule_setters(fm, rep, 'R2s', only=('tags', 'cid'))
